@@ -1208,15 +1208,81 @@ func (env *c14Env) readAtFaults(sp *c14Spec, lay *c14Layout) {
 	for t := c.Rng.Intn(29); t < n; t += c.N(29, 5) {
 		ts = append(ts, t)
 	}
+	chunks := env.chunksOf(sp, ref)
 	for _, t := range ts {
 		if t < 0 || t >= n {
 			continue
 		}
 		r := &c14FaultyReaderAt{data: ref, at: -1, limit: -1}
-		judge(r, c14Replay{What: "readat", Spec: *sp, Call: -1, Mode: "truncated-after-open", L: t}, fmt.Sprintf("after OpenFile only the first %d of %d bytes can be read (short reads with io.EOF beyond)", t, n),
-			func() { r.limit = t })
+		rp := c14Replay{What: "readat", Spec: *sp, Call: -1, Mode: "truncated-after-open", L: t}
+		what := fmt.Sprintf("after OpenFile only the first %d of %d bytes can be read (short reads with io.EOF beyond)", t, n)
+		judge(r, rp, what, func() { r.limit = t })
+		// the model of FilePages.ReadPage on every column chunk: an error is due
+		// exactly when some chunk loses bytes
+		if c.HasOracle() && chunks != nil {
+			expect := false
+			for _, ch := range chunks {
+				avail := min(max(t-ch.start, 0), ch.size)
+				ans := c.Ask(fmt.Sprintf("c14.pages 1 %d %d %s", ch.size, avail, ch.pages))
+				if strings.HasSuffix(ans, "/unexpected") {
+					expect = true
+				} else if !strings.HasSuffix(ans, "/end") {
+					c.Mismatch("corr:C14.pages", what, "-", ans, rp)
+				}
+			}
+			r2 := &c14FaultyReaderAt{data: ref, at: -1, limit: -1}
+			_, _, err, _ := env.readAll(sp, r2, int64(len(ref)), func() { r2.limit = t })
+			if (err != nil) != expect {
+				c.Mismatch("corr:C14.pages", what, fmt.Sprintf("error=%v (%v)", err != nil, err), fmt.Sprintf("error=%v", expect), rp)
+			}
+		}
 	}
 	c.Note("file %s: %d ReadAt calls for OpenFile + full read; each failed in 4 ways; %d truncation points applied after OpenFile", sp.Name, total, len(ts))
+}
+
+type c14Chunk struct {
+	start, size int
+	pages       string // sizes of the pages (header + body), comma separated
+}
+
+// chunksOf lists the column chunks of a file with the sizes of their pages
+// (dictionary page first), from the footer and the offset index.
+func (env *c14Env) chunksOf(sp *c14Spec, ref []byte) []c14Chunk {
+	f, err := parquet.OpenFile(bytes.NewReader(ref), int64(len(ref)), env.openOpts(sp)...)
+	if err != nil {
+		return nil
+	}
+	var out []c14Chunk
+	for g, rg := range f.Metadata().RowGroups {
+		for j, col := range rg.Columns {
+			md := &col.MetaData
+			ch := c14Chunk{start: int(md.DataPageOffset), size: int(md.TotalCompressedSize)}
+			var ps []string
+			sum := 0
+			if md.DictionaryPageOffset > 0 {
+				ch.start = int(md.DictionaryPageOffset)
+				d := int(md.DataPageOffset - md.DictionaryPageOffset)
+				ps = append(ps, fmt.Sprint(d))
+				sum += d
+			}
+			oi, err := f.RowGroups()[g].ColumnChunks()[j].OffsetIndex()
+			if err != nil || oi == nil {
+				env.c.Note("file %s: no offset index for row group %d column %d; chunk model not compared", sp.Name, g, j)
+				return nil
+			}
+			for i := 0; i < oi.NumPages(); i++ {
+				ps = append(ps, fmt.Sprint(oi.CompressedPageSize(i)))
+				sum += int(oi.CompressedPageSize(i))
+			}
+			if sum != ch.size {
+				env.c.Note("file %s: pages of row group %d column %d add up to %d, chunk has %d bytes; chunk model not compared", sp.Name, g, j, sum, ch.size)
+				return nil
+			}
+			ch.pages = strings.Join(ps, ",")
+			out = append(out, ch)
+		}
+	}
+	return out
 }
 
 // fileReadAt compares File.ReadAt (file.go:604, through the readAt wrapper)
